@@ -553,6 +553,8 @@ class Moved(Component):
         self.protocol_calls = [] # (node, kind)
         self.unbalanced = []
         self.lone_restore = []
+        self.collected = []      # (node, moved?) at every to_json call
+        self.move_args = []
 
     def init(self, interp):
         # moved: frozenset of oids currently displaced; saved: frozenset of (oid, epoch) getter reads
@@ -574,6 +576,8 @@ class Moved(Component):
 
     def on_event(self, interp, st, ev):
         cur = st.comp[self.name]
+        if ev.type == "enter" and not ev.entry and ev.callee.name == "to_json":
+            self.collected.append((ev.node, bool(cur["moved"])))
         if ev.type == "enter" and not ev.entry and ev.role and ev.role[0] == "setter" and ev.role[1] in self.PROTOCOL:
             # only the outermost protocol call counts
             inner = [fr for fr in interp.frames[1:-1] if fr.role and fr.role[0] == "setter" and fr.role[1] in self.PROTOCOL]
@@ -600,6 +604,7 @@ class Moved(Component):
                 else:
                     new["moved"] = cur["moved"] | {oid}
                     self.protocol_calls.append((ev.node, "move", oid))
+                    self.move_args.append((ev.node, arg))
             st.comp[self.name] = new
             return
         if ev.type == "leave" and ev.role and ev.role[0] == "getter" and ev.role[1] in self.PROTOCOL:
@@ -638,3 +643,31 @@ class InplaceLog(Component):
     def on_event(self, interp, st, ev):
         if ev.type == "write" and ev.mode == "inplace" and ev.loc[0].startswith("self"):
             st.comp[self.name] = st.comp[self.name] | {(ev.loc, ev.time, ev.where())}
+
+
+# ----------------------------------------------------------------------------- constructor validation (C15)
+class TestsPassed(Component):
+    """which decision tests (by provenance signature) have been evaluated on the path; raises are attributed
+    to the tests evaluated before them."""
+    name = "tests"
+
+    def __init__(self):
+        self.raises = []   # (exc, frozenset(signatures), ev)
+        self.sigs = {}     # node id -> signature
+
+    def init(self, interp):
+        return frozenset()
+
+    def join(self, a, b):
+        return a & b
+
+    def on_branch(self, interp, st, test_node, tv, truth):
+        tags = frozenset(t for t in tv.tags if isinstance(t, tuple) and t and t[0] in ("ret", "len-of"))
+        sig = (id(test_node), tags, tv.pdeps, frozenset(a for (_o, a) in tv.deps if _o != "param"),
+               interp.frames[-1].fn.qualname, getattr(test_node, "lineno", 0))
+        self.sigs[id(test_node)] = sig
+        st.comp[self.name] = st.comp[self.name] | {sig}
+
+    def on_event(self, interp, st, ev):
+        if ev.type == "raise":
+            self.raises.append((ev.exc, st.comp[self.name], ev))
